@@ -1221,10 +1221,17 @@ class Image(object):
             # Avoid annoying RuntimeWarnings on all-NaN data
             with warnings.catch_warnings():
                 warnings.simplefilter("ignore")
+                # The recorded range is the one of the finite values: an
+                # infinite pixel must not hide it any more than a NaN does.
+                finite = arr
+                if (min_value is None or max_value is None) and arr.dtype.kind == "f":
+                    if np.isinf(arr).any():
+                        finite = np.where(np.isinf(arr), np.nan, arr)
+
                 if min_value is not None:
                     header["DATAMIN"] = min_value
                 else:
-                    m = np.nanmin(arr)
+                    m = np.nanmin(finite)
                     if np.isfinite(
                         m
                     ):  # Astropy will raise an error if we don't NaN-guard
@@ -1232,7 +1239,7 @@ class Image(object):
                 if max_value is not None:
                     header["DATAMAX"] = max_value
                 else:
-                    m = np.nanmax(arr)
+                    m = np.nanmax(finite)
                     if np.isfinite(m):
                         header["DATAMAX"] = m
 
